@@ -194,6 +194,9 @@ pub fn run(ctx: &mut Ctx) {
     }
     ctx.run_prop(&SUB_RENUM, || (prop_oneof![random_symbol(2, 8..=40), random_symbol(3, 6..=40)], sw()).prop_map(|(ds, swaps)| Renum { ds, swaps }), n / 4);
     ctx.run_prop(&SUB_RENUM, || (prop_oneof![random_symbol(2, 100..=300), random_symbol(3, 100..=300)], sw()).prop_map(|(ds, swaps)| Renum { ds, swaps }), n / 100);
+    // space-group quotients of the cubic / prism tilings: highly symmetric symbols with up to thousands of chambers
+    let max_n = t.pick(3usize, 4usize);
+    ctx.run_prop(&SUB_RENUM, move || (crate::props::c17::cubic_strategy(max_n), sw()).prop_map(|(c, swaps)| Renum { ds: c.ds, swaps }), t.pick(1_500, 20_000));
     {
         // random pairs: two symbols on the same pooled D-set with branching differing in few places, one renumbered
         let pool = pool.clone();
